@@ -219,8 +219,11 @@ func (p *Processor) ChargingDataCreate(
 		}
 	}
 
-	ue.Cdr[chargingSessionId] = cdr
-	ue.Records = append(ue.Records, ue.Cdr[chargingSessionId])
+	if !chargingData.OneTimeEvent {
+		// only a session can be addressed later on: an event opens none, its (empty) reference designates nothing
+		ue.Cdr[chargingSessionId] = cdr
+	}
+	ue.Records = append(ue.Records, cdr)
 	unlock()
 
 	// CDR Transfer
